@@ -6,7 +6,8 @@
    code under ASan/UBSan on ~30 000 files (see Log/README_depslog.md).  Proofs: Log/DepsLogProofs.v.
 
    Vocabulary (all from DepsLogDefs / DepsLogProofs):
-     load_deps f          what DepsLog::Load does on file content f
+     load_deps f          what DepsLog::Load does on file content f  (= load_deps_ver false true;
+                          load_deps_ver old strict: old = before the torn-size-word fix)
                           (DOk state truncate_to needs_recompaction | DBadHeader | DUnsafe class)
      apply_ops f ops      file content after one ninja session (load, open, RecordDeps..., close)
      session live f ops   the same with IsDepsEntryLiveFor = live (matters when Load asks for
@@ -18,10 +19,14 @@
      wf_ops ops           paths non-empty, not ending in NUL, records <= kMaxRecordSize, mtimes
                           in int64, fewer than 2^31-1 path mentions
    Results: roundtrip, sessions, recompaction, garbage tail hold in full generality (unbounded).
-   C09_torn is REFUTED for cuts leaving 1-3 bytes of a record's size word (they are not truncated)
-   and so is its consequence (the next session's records are lost); both are proved for all other
-   cuts.  C13 is REFUTED for the deps log: six classes of files make Load exhibit undefined
-   behaviour, a seventh crashes Recompact; proved safe outside these classes. *)
+   C09_torn and C09_torn_next_session hold in full for the CURRENT loader (after the fix
+   "truncate a torn record header when loading the deps log"): every cut, no exception.  For the
+   loader as it was before ([load_deps_old] = [load_deps_ver true true], sessions
+   [apply_ops_old]) both are REFUTED for cuts leaving 1-3 bytes of a record's size word (not
+   truncated; the next session's records were lost) and proved for all other cuts: these
+   witnesses document why the code changed.  C13 is REFUTED for the deps log: six classes of
+   files make Load exhibit undefined behaviour, a seventh crashes Recompact; proved safe
+   outside these classes (unchanged by the fix). *)
 From NinjaV Require Import Base.Bytes Log.DepsLogDefs Log.DepsLogProofs.
 Local Open Scope N_scope.
 
@@ -81,13 +86,14 @@ Proof. split; [split; vm_compute; reflexivity|reflexivity]. Qed.
 
 (* One session on a writer-produced file, recompaction included: what the next load sees is the
    old view (restricted to the live outputs when the load asked for recompaction) updated by the
-   session's records. *)
-Theorem C09_session_step : forall strict live (U : list bytes) f s ops,
+   session's records.  [old] selects the loader before/after the torn-size-word fix (no
+   difference on clean files), [strict] whether misaligned loads count as undefined. *)
+Theorem C09_session_step : forall old strict live (U : list bytes) f s ops,
   nlen U < kMaxIds -> oclean strict f s -> ok_state s -> incl (d_paths s) U ->
   Forall (fun op => incl (op_paths op) U) ops -> forallb wf_op ops = true ->
   exists s' nr,
-    load_deps_gen strict f = DOk s None nr /\
-    oclean strict (session_gen strict live f ops) s' /\ ok_state s' /\ incl (d_paths s') U /\
+    load_deps_ver old strict f = DOk s None nr /\
+    oclean strict (session_ver old strict live f ops) s' /\ ok_state s' /\ incl (d_paths s') U /\
     (forall o, view s' o =
                upd (fun o => if nr then (if live o then view s o else None) else view s o) ops o).
 Proof. exact session_spec. Qed.
@@ -123,73 +129,140 @@ Proof.
 Qed.
 
 (* ------------------------------------------------------------------------------------ *)
-(* Torn writes                                                                          *)
+(* Torn writes — current loader (after the fix "truncate a torn record header when loading
+   the deps log")                                                                       *)
 
-(* For every prefix of a log written by ninja: below 16 bytes the header is invalid (the file is
+(* For EVERY prefix of a log written by ninja: below 16 bytes the header is invalid (the file is
    unlinked and the log starts over); otherwise let off be the last record boundary <= k
    (clean prefix, and no clean prefix between off and k): the loader returns exactly the state of
-   the records complete at off, and
-     - k = off              : no truncation;
-     - off + 4 <= k         : read_failed, truncation to off;
-     - off < k < off + 4    : NO truncation - 1 to 3 stray bytes stay in the file (the defect). *)
-Theorem C09_torn_partial : forall ops : list dop,
+   the records complete at off, and truncates to off whenever k is not on a record boundary. *)
+Theorem C09_torn : forall ops : list dop,
   wf_ops ops ->
   forall k, (k <= length (apply_ops [] ops))%nat ->
   ((k < 16)%nat -> load_deps (firstn k (apply_ops [] ops)) = DBadHeader) /\
+  ((16 <= k)%nat ->
+   exists off s1 nr,
+     (16 <= off <= k)%nat /\
+     clean true (firstn off (apply_ops [] ops)) s1 /\
+     (forall j s', (off < j <= k)%nat -> ~ clean true (firstn j (apply_ops [] ops)) s') /\
+     load_deps (firstn k (apply_ops [] ops)) =
+       DOk s1 (if (k =? off)%nat then None else Some off) nr).
+Proof. exact C09_torn_thm. Qed.
+Print Assumptions C09_torn.
+
+(* The exact outcome for both loaders ([torn_outcome]: the recompaction flag is the one of the
+   state at off when only a size word was torn, false when read_failed). *)
+Theorem C09_torn_outcome : forall ops : list dop,
+  wf_ops ops ->
+  forall k, (16 <= k <= length (apply_ops [] ops))%nat ->
+  exists off s1 nr1,
+    (16 <= off <= k)%nat /\
+    clean true (firstn off (apply_ops [] ops)) s1 /\
+    (forall j s', (off < j <= k)%nat -> ~ clean true (firstn j (apply_ops [] ops)) s') /\
+    (forall old, load_deps_ver old true (firstn k (apply_ops [] ops))
+                 = torn_outcome old s1 nr1 off k).
+Proof. exact torn_apply_ops. Qed.
+Print Assumptions C09_torn_outcome.
+
+(* Whatever prefix of the log reached the disk, the next session is consistent: the load after
+   it sees the records complete at the cut updated by everything the session recorded, and the
+   file is clean again (no truncation needed). *)
+Theorem C09_torn_next_session : forall ops ops2 : list dop,
+  wf_ops (ops ++ ops2) ->
+  forall k, (k <= length (apply_ops [] ops))%nat ->
+  ((k < 16)%nat ->
+   exists s' nr,
+     load_deps (apply_ops (firstn k (apply_ops [] ops)) ops2) = DOk s' None nr /\
+     forall o, view s' o = spec_view (abstract_ops ops2 o)) /\
+  ((16 <= k)%nat ->
+   exists off s1,
+     (16 <= off <= k)%nat /\
+     clean true (firstn off (apply_ops [] ops)) s1 /\
+     (forall j s', (off < j <= k)%nat -> ~ clean true (firstn j (apply_ops [] ops)) s') /\
+     exists s' nr,
+       load_deps (apply_ops (firstn k (apply_ops [] ops)) ops2) = DOk s' None nr /\
+       forall o, view s' o = upd (view s1) ops2 o).
+Proof. exact C09_torn_next_session_thm. Qed.
+Print Assumptions C09_torn_next_session.
+
+Example C09_torn_nonvacuous :
+  wf_ops (torn_ops ++ torn_ops2) /\ (16 <= 30 <= length (apply_ops [] torn_ops))%nat.
+Proof.
+  split; [split; vm_compute; reflexivity|].
+  replace (length (apply_ops [] torn_ops)) with 44%nat by (vm_compute; reflexivity). lia.
+Qed.
+
+(* the history that used to lose a session, on the current code *)
+Example C09_torn_fixed_example :
+  load_deps (firstn 30 torn_file) = DOk (mkD [[97]] []) (Some 28%nat) false /\
+  load_deps (apply_ops (firstn 30 torn_file) torn_ops2)
+  = DOk (mkD [[97]; [98]] [(1, (2%Z, []))]) None false.
+Proof. split; [exact torn_cut_30|exact torn_next_load]. Qed.
+
+(* ------------------------------------------------------------------------------------ *)
+(* Torn writes — the OLD loader ([load_deps_old], [apply_ops_old]): why the code changed  *)
+
+(* Same as C09_torn except for off < k < off + 4 (1 to 3 bytes of a size word): fread returned
+   short with feof set, read_failed stayed false: NO truncation. *)
+Theorem C09_torn_old_partial : forall ops : list dop,
+  wf_ops ops ->
+  forall k, (k <= length (apply_ops [] ops))%nat ->
+  ((k < 16)%nat -> load_deps_old (firstn k (apply_ops [] ops)) = DBadHeader) /\
   ((16 <= k)%nat ->
    exists off s1 nr1,
      (16 <= off <= k)%nat /\
      clean true (firstn off (apply_ops [] ops)) s1 /\
      (forall j s', (off < j <= k)%nat -> ~ clean true (firstn j (apply_ops [] ops)) s') /\
-     load_deps (firstn k (apply_ops [] ops)) =
+     load_deps_old (firstn k (apply_ops [] ops)) =
        (if (k - off <? 4)%nat then DOk s1 None nr1 else DOk s1 (Some off) false)).
-Proof. exact C09_torn_partial_thm. Qed.
-Print Assumptions C09_torn_partial.
+Proof. exact C09_torn_old_partial_thm. Qed.
+Print Assumptions C09_torn_old_partial.
 
-(* The intended statement - every cut off a record boundary is truncated back to it - is FALSE. *)
-Theorem C09_torn_refuted :
+(* The statement C09_torn is FALSE of the old loader. *)
+Theorem C09_torn_old_refuted :
   ~ (forall ops, wf_ops ops ->
      forall k, (16 <= k <= length (apply_ops [] ops))%nat ->
      exists off s1 nr1,
        (16 <= off <= k)%nat /\
        clean true (firstn off (apply_ops [] ops)) s1 /\
-       load_deps (firstn k (apply_ops [] ops)) =
+       load_deps_old (firstn k (apply_ops [] ops)) =
          DOk s1 (if (k =? off)%nat then None else Some off) nr1).
-Proof. exact C09_torn_refuted_thm. Qed.
-Print Assumptions C09_torn_refuted.
+Proof. exact C09_torn_old_refuted_thm. Qed.
+Print Assumptions C09_torn_old_refuted.
 
 (* the witness: RecordDeps("a", 1, {}) writes 44 bytes; the first 30 of them (2 bytes into the
-   deps record's size word) load WITHOUT truncation *)
-Example C09_torn_witness :
+   deps record's size word) loaded WITHOUT truncation *)
+Example C09_torn_old_witness :
   torn_file = deps_header ++ [8; 0; 0; 0; 97; 0; 0; 0; 255; 255; 255; 255]
                           ++ [12; 0; 0; 128; 0; 0; 0; 0; 1; 0; 0; 0; 0; 0; 0; 0] /\
-  load_deps (firstn 30 torn_file) = DOk (mkD [[97]] []) None false.
-Proof. split; [exact torn_file_bytes|exact torn_cut_30]. Qed.
+  load_deps_old (firstn 30 torn_file) = DOk (mkD [[97]] []) None false.
+Proof. split; [exact torn_file_bytes|exact torn_cut_30_old]. Qed.
 
-(* Consequence, also FALSE: "whatever prefix of the log reached the disk, what the next session
-   records is seen by the load after it". *)
-Theorem C09_torn_next_session_lost_refuted :
+(* Consequence, also FALSE of the old code: "whatever prefix of the log reached the disk, what the
+   next session records is seen by the load after it". *)
+Theorem C09_torn_next_session_old_lost_refuted :
   ~ (forall ops ops2 k, wf_ops (ops ++ ops2) -> (k <= length (apply_ops [] ops))%nat ->
      forall o x, abstract_ops ops2 o = Some x ->
      exists s tr nr,
-       load_deps (apply_ops (firstn k (apply_ops [] ops)) ops2) = DOk s tr nr /\
+       load_deps_old (apply_ops_old (firstn k (apply_ops [] ops)) ops2) = DOk s tr nr /\
        view s o = spec_view (Some x)).
-Proof. exact C09_torn_next_session_lost_refuted_thm. Qed.
-Print Assumptions C09_torn_next_session_lost_refuted.
+Proof. exact C09_torn_next_session_old_lost_refuted_thm. Qed.
+Print Assumptions C09_torn_next_session_old_lost_refuted.
 
-(* the witness: the next session records "b" behind the stray bytes 0c 00; the load after it
-   reads the size word 0c 00 08 00 (= 524300 > kMaxRecordSize), keeps only "a" and truncates
-   the file to 28 bytes: both records of that session are lost, silently (a warning is printed) *)
-Example C09_torn_next_session_witness :
-  apply_ops (firstn 30 torn_file) torn_ops2 =
+(* the witness: the next session recorded "b" behind the stray bytes 0c 00; the load after it
+   read the size word 0c 00 08 00 (= 524300 > kMaxRecordSize), kept only "a" and truncated
+   the file to 28 bytes: both records of that session were lost (only a warning was printed) *)
+Example C09_torn_next_session_old_witness :
+  apply_ops_old (firstn 30 torn_file) torn_ops2 =
     deps_header ++ [8; 0; 0; 0; 97; 0; 0; 0; 255; 255; 255; 255] ++ [12; 0]
     ++ [8; 0; 0; 0; 98; 0; 0; 0; 254; 255; 255; 255]
     ++ [12; 0; 0; 128; 1; 0; 0; 0; 2; 0; 0; 0; 0; 0; 0; 0] /\
-  load_deps (apply_ops (firstn 30 torn_file) torn_ops2) = DOk (mkD [[97]] []) (Some 28%nat) false.
-Proof. split; [exact torn_next_file|exact torn_next_load]. Qed.
+  load_deps_old (apply_ops_old (firstn 30 torn_file) torn_ops2)
+  = DOk (mkD [[97]] []) (Some 28%nat) false.
+Proof. split; [exact torn_next_file_old|exact torn_next_load_old]. Qed.
 
-(* For every other cut the next session is consistent. *)
-Theorem C09_torn_next_session_partial : forall ops ops2 : list dop,
+(* For every other cut the old code was consistent too. *)
+Theorem C09_torn_next_session_old_partial : forall ops ops2 : list dop,
   wf_ops (ops ++ ops2) ->
   forall k, (16 <= k <= length (apply_ops [] ops))%nat ->
   exists off s1,
@@ -198,28 +271,22 @@ Theorem C09_torn_next_session_partial : forall ops ops2 : list dop,
     (forall j s', (off < j <= k)%nat -> ~ clean true (firstn j (apply_ops [] ops)) s') /\
     (k = off \/ (off + 4 <= k)%nat ->
      exists s' nr,
-       load_deps (apply_ops (firstn k (apply_ops [] ops)) ops2) = DOk s' None nr /\
+       load_deps_old (apply_ops_old (firstn k (apply_ops [] ops)) ops2) = DOk s' None nr /\
        forall o, view s' o = upd (view s1) ops2 o).
-Proof. exact C09_torn_next_session_partial_thm. Qed.
-Print Assumptions C09_torn_next_session_partial.
-
-Example C09_torn_nonvacuous :
-  wf_ops (torn_ops ++ torn_ops2) /\ (16 <= 32 <= length (apply_ops [] torn_ops))%nat.
-Proof.
-  split; [split; vm_compute; reflexivity|].
-  replace (length (apply_ops [] torn_ops)) with 44%nat by (vm_compute; reflexivity). lia.
-Qed.
+Proof. exact C09_torn_next_session_old_partial_thm. Qed.
+Print Assumptions C09_torn_next_session_old_partial.
 
 (* ------------------------------------------------------------------------------------ *)
 (* Arbitrary bytes after a valid log                                                    *)
 
 (* Unless the garbage drives the C++ into undefined behaviour (C13 below): every record of the
    valid prefix is kept (the tables only grow), and either the file is cut exactly in front of
-   the first malformed record, leaving a clean file whose state is the one returned, or the
-   end of the file is reached with at most 3 stray bytes. *)
-Theorem C09_garbage_tail : forall strict (f : bytes) (s : dstate) (g : bytes),
+   the first malformed record (or torn size word), leaving a clean file whose state is the one
+   returned, or the end of the file is reached and the whole file is clean (old loader: up to 3
+   stray bytes may remain). *)
+Theorem C09_garbage_tail : forall old strict (f : bytes) (s : dstate) (g : bytes),
   clean strict f s ->
-  match load_deps_gen strict (f ++ g) with
+  match load_deps_ver old strict (f ++ g) with
   | DUnsafe _ => True
   | DOk s' tr nr =>
       extends s s' /\
@@ -227,7 +294,8 @@ Theorem C09_garbage_tail : forall strict (f : bytes) (s : dstate) (g : bytes),
       | Some off =>
           (length f <= off <= length (f ++ g))%nat /\ clean strict (firstn off (f ++ g)) s'
       | None =>
-          exists f' stray, f ++ g = f' ++ stray /\ (length stray < 4)%nat /\
+          exists f' stray, f ++ g = f' ++ stray /\
+                           (if old then (length stray < 4)%nat else stray = []) /\
                            (length f <= length f')%nat /\ clean strict f' s'
       end
   | DBadHeader | DFuel => False
@@ -241,10 +309,10 @@ Proof.
 Qed.
 
 (* ------------------------------------------------------------------------------------ *)
-(* C13 for the deps log                                                                 *)
+(* C13 for the deps log (unchanged by the fix)                                          *)
 
 (* Load terminates on every byte string (the fuel of the model is never exhausted). *)
-Theorem C13_depslog_total : forall strict (f : bytes), load_deps_gen strict f <> DFuel.
+Theorem C13_depslog_total : forall old strict (f : bytes), load_deps_ver old strict f <> DFuel.
 Proof. exact load_deps_never_fuel. Qed.
 Print Assumptions C13_depslog_total.
 
@@ -267,8 +335,8 @@ Print Assumptions C13_depslog_bounds_full_refuted.
 
 (* Outside these classes (safe_file: a syntactic condition on the framed records) Load has no
    undefined behaviour; strict = true counts the misaligned checksum load, strict = false does not. *)
-Theorem C13_depslog_bounds_partial : forall strict (f : bytes),
-  safe_file strict f = true -> forall w, load_deps_gen strict f <> DUnsafe w.
+Theorem C13_depslog_bounds_partial : forall old strict (f : bytes),
+  safe_file strict f = true -> forall w, load_deps_ver old strict f <> DUnsafe w.
 Proof. exact C13_depslog_bounds_partial_thm. Qed.
 Print Assumptions C13_depslog_bounds_partial.
 
